@@ -401,7 +401,7 @@ pub fn fuzz_entry(data: &[u8], obs: &mut Obs) -> Result<(), Fail> {
 // ------------------------------------------------------------------ coverage-guided lane (libFuzzer)
 
 fn fuzz_spec() -> crate::fuzzlane::FuzzSpec {
-    crate::fuzzlane::FuzzSpec { target: "framing", oracle: fuzz_entry, seeds: crate::fuzzlane::seeds_framing, max_len: 256, runs_per_worker: 1500000 }
+    crate::fuzzlane::FuzzSpec { target: "framing", oracle: fuzz_entry, seeds: crate::fuzzlane::seeds_framing, max_len: 256, runs_per_worker: 500000 }
 }
 
 fn fuzz_run(ctx: &Ctx, known: &[crate::runner::KnownFinding]) -> crate::runner::LaneReport {
